@@ -273,6 +273,34 @@ def constructed_triples():
     mvals = [0, 1, n - 1, i32(fill[1]) % n]
     pts = [(xx % n, xx, "x>=n") for xx in xs] + [(xx % n, xx, "x~p") for xx in top] + [(xx, xx, "x<n") for xx in low] + \
           [(r, xx, "guard") for (r, xx) in guard]
+    # "wrapped" r: r' = X(R) + (p - n) for points with small x; X(R) mod n != r', so the triple built for r' must be
+    # REJECTED (a verifier whose x+n<p guard is wrong adds n to r' and wraps around p to X(R))
+    xw = []
+    x = 1
+    while len(xw) < 4:
+        if C.lift_x(x) is not None:
+            xw.append(x)
+        x += 1
+    for kk in (1, 2, 3):
+        xw.append(C.mulG(kk)[0])
+    for xx in xw:
+        rw = xx + (p - n)
+        if not (0 < rw < n):
+            continue
+        for odd in (0, 1):
+            R = C.lift_x(xx, odd)
+            for s in (1, 2, (n - 1) // 2):
+                for m in (0, 1, n - 1):
+                    Q = C.mul(pow(rw, -1, n), C.add(C.mul(s, R), C.neg(C.mulG(m))))
+                    if Q is not None:
+                        out.append((rw, s, b32(m), Q, "wrapped-r"))
+    # s at every limb boundary of the half order (valid low s just below, high s just above)
+    lb = [v for v in limb_boundaries([(n - 1) // 2, n]) if 0 < v < n]
+    for si, s in enumerate(lb):
+        R = C.mulG(5 + si % 3)
+        r = R[0] % n
+        m = (s * (5 + si % 3) - r * 77) % n          # valid for key d = 77 and nonce k = 5 + si%3
+        out.append((r, s, b32(m), C.mulG(77), "s-limb-boundary"))
     for (r, xx, tag) in pts:
         for odd in (0, 1):
             R = C.lift_x(xx, odd)
@@ -318,6 +346,21 @@ def prod_triple_case(L, case, st):
     st.sample({"r": hex(r), "s": hex(s), "msg": hx(m32), "Q": hex(Q[0]), "why": tag})
 
 
+def normalize_limb_cases(L, st):
+    for s in limb_boundaries([(N - 1) // 2, N]):
+        if not (0 <= s < N):
+            continue
+        sig = sig_from_rs(L, 1, s)
+        out = buf(64)
+        was = L.ecdsa_signature_normalize(L.ctx, out, sig)
+        st.calls += 1
+        es = N - s if s > N // 2 else s
+        if was != (1 if s > N // 2 else 0) or sig_compact(L, out) != b32(1) + b32(es):
+            st.fail("signature_normalize(s=%s): returned %d, s -> %s" % (hex(s), was, hx(sig_compact(L, out)[32:])), {"cfg": L.config, "s": hex(s)})
+        st.count("normalize-limb-boundary")
+        st.nt(("norm", s))
+
+
 def failing_nonce_cases(L, st):
     """production: nonce callback returning 0 -> ret 0 and zero signature; callback returning k>=n / 0 is retried"""
     seq = []
@@ -339,6 +382,7 @@ def failing_nonce_cases(L, st):
         return 0
     cb = NONCE_FN(fn)
     sig = buf(64)
+    normalize_limb_cases(L, st)
     ret = L.ecdsa_sign(L.ctx, sig, b32(5), b32(3), cb, None)
     exp = E.sign_with_nonce(3, 5, 7)
     st.calls += 1
